@@ -5,6 +5,11 @@ import json, subprocess, os
 ALL = ["C%02d" % i for i in range(1, 21)]
 # id -> (category, technique, level text, level note, design ref)
 CHECKS = {
+ "C20": ("model_checking",
+  "exhaustive enumeration of (field kind x boundary value x position) assignments against an acceptance table, plus explicit-state BFS over construct/assign/alias/copy/freeze/mutate histories on real messages (path replay, canonical object-graph state with storage identities)",
+  "Every scalar kind x value x position case either stores exactly the given value (read back, binary and text round trip) or fails with an error, never a panic; every history up to the stated depth over 2 and 3 message handles keeps frozen storage unchanged, self-assignment lossless and stored values well-typed. Known aliasing defect (shallow copy / sub-message aliasing under separate frozen flags) is recorded in known_findings.json.",
+  "Trusts protobuf-go for marshal/equal; acceptance table written from proto.go's documented conversions (conversions the doc leaves open are not judged); handle-permutation symmetry reduction.",
+  "DESIGN.md §3 C20"),
  "C07": ("fault_enumeration",
   "exhaustive fault enumeration over the step index (every limit N, every synchronous and asynchronous cancellation point, Cancel/Uncancel orders) per corpus program, explicit-state search of the thread's cancel state machine against a reference model, plus a free-running -race pass",
   "For each corpus program every limit N in [1..S+1], a synchronous Cancel in every built-in call, and an asynchronous Cancel by a second goroutine before every instruction (with both orders of a competing Uncancel) is executed on the real interpreter; exactly the probes before the fault point fire, the error names the first reason, the stack depth is restored; non-terminating programs stop under every limit up to a bound; all Cancel/Uncancel/SetMax/Exec sequences to a depth agree with the sticky-reason model.",
